@@ -64,6 +64,11 @@ func (n *node) RouteSendPID(from gen.PID, to gen.PID, options gen.MessageOptions
 			return gen.ErrProcessMailboxFull
 		}
 
+		if redirectedBy(p.pid, message) {
+			// the fallback processes form a loop and all of them are full
+			return gen.ErrProcessMailboxFull
+		}
+
 		fbm := gen.MessageFallback{
 			PID:     p.pid,
 			Tag:     p.fallback.Tag,
@@ -75,6 +80,23 @@ func (n *node) RouteSendPID(from gen.PID, to gen.PID, options gen.MessageOptions
 	atomic.AddUint64(&p.messagesIn, 1)
 	p.run()
 	return nil
+}
+
+// redirectedBy reports whether the message has been redirected by the given process
+// before: every process that refuses a message wraps it into a gen.MessageFallback with
+// its own PID. Fallback processes that refer to each other (and are all full) would
+// hand the message round for ever otherwise.
+func redirectedBy(pid gen.PID, message any) bool {
+	for {
+		fbm, ok := message.(gen.MessageFallback)
+		if ok == false {
+			return false
+		}
+		if fbm.PID == pid {
+			return true
+		}
+		message = fbm.Message
+	}
 }
 
 func (n *node) RouteSendProcessID(from gen.PID, to gen.ProcessID, options gen.MessageOptions, message any) error {
@@ -132,6 +154,11 @@ func (n *node) RouteSendProcessID(from gen.PID, to gen.ProcessID, options gen.Me
 		}
 
 		if p.fallback.Name == p.name {
+			return gen.ErrProcessMailboxFull
+		}
+
+		if redirectedBy(p.pid, message) {
+			// the fallback processes form a loop and all of them are full
 			return gen.ErrProcessMailboxFull
 		}
 
@@ -211,6 +238,11 @@ func (n *node) RouteSendAlias(from gen.PID, to gen.Alias, options gen.MessageOpt
 		}
 
 		if p.fallback.Name == p.name {
+			return gen.ErrProcessMailboxFull
+		}
+
+		if redirectedBy(p.pid, message) {
+			// the fallback processes form a loop and all of them are full
 			return gen.ErrProcessMailboxFull
 		}
 
